@@ -1964,7 +1964,7 @@ def translate_source(src: str, specs: list, module_name: str, rel: str):
     for spec in specs:
         info = {'function': '%s.%s' % (module_name, spec['qualname']), 'source_file': rel, 'lines': None,
                 'lean_def': 'Src.%s.%s' % (short, spec['lean_name']),
-                'lean_pre': 'Src.%s.%s_pre' % (short, spec['lean_name']),
+                'lean_pre': None if spec.get('cls') else 'Src.%s.%s_pre' % (short, spec['lean_name']),
                 'tie_theorem': spec['tie_theorem']}
         infos.append(info)
         try:
